@@ -136,7 +136,7 @@ func plans() []plan {
 	add("context", 800, 50000)
 	add("outercancel", 1000, 60000)
 	add("stress", 160, 8000)
-	add("outer-bigtree", 36, 1200)
+	add("outer-bigtree", 36, 400)
 	return ps
 }
 
